@@ -671,6 +671,9 @@ func (ab *dsAddrBook) setAddrs(p peer.ID, addrs []ma.Multiaddr, ttl time.Duratio
 				Ttl:    int64(ttl),
 				Expiry: newExp,
 			}
+			// a later occurrence of the same address in this batch must update this entry,
+			// not append a second one
+			addrsMap[string(entry.Addr)] = entry
 			entries = append(entries, entry)
 			if incomingIsUnconnected {
 				unconnectedCount++
